@@ -283,6 +283,8 @@ def pat_desc(p):
         return ("var", p.get("ctor_of") or p.get("def"), tuple((f["name"], pat_desc(f["pat"])) for f in p["fields"]), "struct")
     if k == "por":
         return ("or", tuple(pat_desc(s) for s in p["subs"]))
+    if k == "pslice":
+        return ("slice", tuple(pat_desc(s) for s in (p.get("before") or [])), bool(p.get("mid")), tuple(pat_desc(s) for s in (p.get("after") or [])))
     if k in ("pref", "pderef"):
         return pat_desc(p["sub"])
     if k == "ptup":
@@ -738,10 +740,14 @@ class Evaluator:
                 for lid, t in tmp.items():
                     env[lid] = mk_join([env[lid], t]) if lid in env and env[lid] != t else t
         elif k == "pslice":
-            for s in (p.get("before") or []) + (p.get("after") or []):
+            before, after = p.get("before") or [], p.get("after") or []
+            for i, s in enumerate(before):
+                self._bind(s, ("index", term, ("lit", Int(i))), env)
+            for s in after:
                 self._bind(s, ("elem", term), env)
             if p.get("mid"):
-                self._bind(p["mid"], term, env)
+                rest = ("index", term, ("struct", "std::ops::RangeFrom", (("start", ("lit", Int(len(before)))),))) if not after else ("unk", "slice-middle")
+                self._bind(p["mid"], rest if before else (term if not after else rest), env)
 
     def lookup(self, lid, name):
         t = self.st.env.get(lid)
